@@ -13,6 +13,7 @@ import (
 	"os"
 	"path/filepath"
 	"regexp"
+	"sort"
 	"strings"
 )
 
@@ -40,6 +41,7 @@ type cCase struct {
 	Rebuild [][]bool `json:"rebuild,omitempty"` // revision r>0: package j is rebuilt: same version (same URL), new content
 	Race   *cRace   `json:"race,omitempty"`
 	Flight *cFlight `json:"flight,omitempty"`
+	Glue   *cGlue   `json:"glue,omitempty"` // histories around the glue of the cache (cache_glue.go)
 }
 
 // cRace: build A (cold) is killed at marker Kill of package Pkg (install order); build B is paused inside
@@ -119,6 +121,12 @@ func (cacheSuite) Gen(r *Rng, i int, tier string) any {
 		// request coalescing in one process (no repository needed)
 		c.NRev = 0
 		c.Flight = &cFlight{N: r.Range(2, 4), Kind: Pick(r, []string{"index", "key"}), Size: Pick(r, []int{700, 5000, 70000, 300000}), Etag: r.Chance(70), Slow: r.Chance(50)}
+		return c
+	}
+	if r.Chance(30) {
+		// same-process / default-options builds over several index revisions, several http keys of one remote
+		// directory, connection cuts on the etag path, offline builds after each
+		gluecacheGen(r, &c, i, tier)
 		return c
 	}
 	for j := 0; j < cacheNPkg; j++ {
@@ -340,6 +348,20 @@ func (e *cacheEnv) child(o childOpts) childRes {
 	return startChild(e.scratch, e.nchild, o)()
 }
 
+// state: the abstracted cache directory plus whatever the builds left in their working directories
+func (e *cacheEnv) state(cache string) string {
+	toks := cacheCwdTokens(e.scratch)
+	st := abstractCache(cache, e.known)
+	if len(toks) == 0 {
+		return st
+	}
+	if st != "" {
+		toks = append(strings.Split(st, ","), toks...)
+	}
+	sort.Strings(toks)
+	return strings.Join(toks, ",")
+}
+
 func (e *cacheEnv) outcome(r childRes) string {
 	switch {
 	case strings.HasPrefix(r.Status, "ok "):
@@ -459,6 +481,9 @@ func (cacheSuite) Run(raw json.RawMessage) []Step {
 	if c.Flight != nil {
 		return runFlight(&c)
 	}
+	if c.Glue != nil {
+		return runGlue(&c)
+	}
 	e, why := setupCacheEnv(&c)
 	if e != nil {
 		defer os.RemoveAll(e.scratch)
@@ -548,7 +573,7 @@ func (cacheSuite) Run(raw json.RawMessage) []Step {
 		}
 		outs = append(outs, e.outcome(res))
 	}
-	state := abstractCache(cache, e.known)
+	state := e.state(cache)
 	line := strings.Join([]string{"cache-seq", "1", e.revsField(), strings.Join(builds, ";"), state, strings.Join(outs, ",")}, "\t")
 	interrupted := false
 	for _, o := range outs {
@@ -584,7 +609,7 @@ func (cacheSuite) Run(raw json.RawMessage) []Step {
 			couts = append(couts, o)
 		}
 		off := e.outcome(e.child(childOpts{Cache: cache, Offline: true}))
-		cstate := abstractCache(cache, e.known)
+		cstate := e.state(cache)
 		steps = append(steps, Step{Line: strings.Join([]string{"cache-conc", fmt.Sprintf("ok:img%d", e.revCid[last]), cstate, strings.Join(couts, ","), off, e.revsField()}, "\t"),
 			Go: "-", Mode: "verdict", NoImpl: true, Tags: concTags(c, len(c.Builds)),
 			Desc: fmt.Sprintf("%d concurrent recovery builds + offline after builds=%s", c.Conc, strings.Join(builds, ";"))})
@@ -640,7 +665,7 @@ func runRace(c *cCase, e *cacheEnv) []Step {
 	cacheRelease(e.scratch, bid)
 	bres := waitB()
 	outs := []string{e.outcome(cres), e.outcome(bres)}
-	state := abstractCache(cache, e.known)
+	state := e.state(cache)
 	return []Step{{Line: strings.Join([]string{"cache-race", "ok:img1", state, strings.Join(outs, ","), e.revsField()}, "\t"),
 		Go: "-", Mode: "verdict", NoImpl: true, Tags: tags,
 		Desc: fmt.Sprintf("A killed at %q of package %d (marker %d), B paused at marker %s (reached: %v), C full, B released → C %s, B %s", c.Race.Kill, j, kill, pause, paused, outs[0], outs[1])}}
